@@ -1,3 +1,4 @@
 -- Root of the `ImathVerif` library: every property file is imported here so
 -- that a plain `lake build` checks everything.
 import ImathVerif.Props.C01
+import ImathVerif.Props.C20
